@@ -28,6 +28,7 @@ pub struct Stats {
 const TERMS1: &[&str] = &[
     "$A", "1", "a", "#inf", "#sup", "$A+1", "$A-1", "$A*2", "-$A", "1..$A", "$A..2", "0..1", "2..1", "$A/2", "2/$A", "$A\\2", "2\\$A",
     "1/0", "a+1", "$A+a", "(1..2)+$A", "(0..1)*2", "-(0..1)", "$A/(0..1)", "($A+1)*2", "1..a", "$A-(-1)", "(0..1)..2", "3/2", "-3/2", "-3\\2", "2/(-1)",
+    "1..#sup", "#inf..2", "-#sup", "#inf+1", "1..-#sup", "-#inf..$A", "$A..#sup", "#inf..#sup", "a..2", "1..a+1",
     "$A/2+1", "($A\\2)*2", "-($A/2)", "1..($A/2)", "2/($A-1)", "($A+1)\\2", "(2/$A)..2", "-(-$A)", "($A*$A)-1", "1-(2\\$A)", "(1..2)/(1..2)", "($A..2)\\2",
 ];
 const TERMS2: &[&str] = &["$A+$B", "$A*$B", "$A..$B", "$A/$B", "$A\\$B", "$A-$B", "$B"];
@@ -202,9 +203,11 @@ pub fn check_rule(text: &str, n_interp: usize, stats: &mut Stats, fails: &mut Ve
     let l = bound + 2;
     let dom = Domain::new(-l, l, &["a", "b"]);
     let values = dom.of(crate::dom::Sort::General);
-    let tau = program.clone().tau_star();
-    let nat = program.clone().natural();
-    let mu = program.clone().mu();
+    let translated = std::panic::catch_unwind(|| (program.clone().tau_star(), program.clone().natural(), program.clone().mu()));
+    let (tau, nat, mu) = match translated {
+        Ok(x) => x,
+        Err(_) => { fails.push(Failure { property: "C08", input: text.into(), detail: "a translator (tau*, natural or mu) panicked on an accepted program (mu never fails; C16)".into() }); fails.push(Failure { property: "C16", input: text.into(), detail: "a translator (tau*, natural or mu) panicked on an accepted program".into() }); return; }
+    };
     stats.rules += 1;
     if nat.is_some() { stats.natural_accepted += 1; }
     // C18: translating the same program again gives the same theory
